@@ -405,7 +405,8 @@ func extractC20(c *ctxT) {
 	}
 	fmt.Fprintf(&sb, "\n/-- the closure returned by `NewAnteHandler` starts with `defer evmante.Recover(ctx.Logger(), &err)` on its named result -/\ndef anteRecoversFirst : Bool := %v\n", recov)
 
-	// default allowance and the app wiring
+	// wiring facts (ante chain, routing, app.go, ValidateModuleName, Byte32ToString)
+	c20Wire(c, &sb, &t.unknowns)
 	sort.Strings(t.unknowns)
 	sb.WriteString("\n/-- constructs the translator did not know (must be empty) -/\ndef unknownConstructs : List String := " + leanList(mapStr(t.unknowns, leanStr)) + "\n")
 	sb.WriteString("\nend FxVerif.Gen.C20\n")
